@@ -814,6 +814,13 @@ func hostC11(o *out, replay string) {
 			bg++
 		}
 	}
+	// a second host connection (after a first one that came and went, and without one)
+	for _, proto := range []string{"netrpc", "grpc"} {
+		for _, first := range []bool{false, true} {
+			impl, pred := runSecondConn(proto, first)
+			o.emit(fmt.Sprintf("!C11.second-conn proto=%s first=%s", proto, b01(first)), impl, pred)
+		}
+	}
 	o.note("C11 scripts=%d (late-output-after-idle=%d ladder=%d random=%d) per configuration: %s", len(cases), nLate, len(c11Configs), nRandom, c11Map(cfgCount))
 	o.note("C11 writes=%d by size: %s; by payload kind (0 rng,1 NUL,2 invalid-utf8,3 counter,4 newline/pipe): %s", writes, c11IntMap(sizeCount), c11IntMap(kindCount))
 	o.note("C11 steps: %s (b=Emit both, o/e=one stream, p=two concurrent Emits on different streams, d=Double); independent-goroutine scripts=%d; background-Double scripts=%d; Double calls made=%d",
